@@ -67,7 +67,7 @@ mod hexbytes {
 /// /repo's remap prints a line to stderr for every non-class entry and every signature. That output is not an
 /// observation of any property; it is sent to /dev/null while the real code runs (process-wide, reference
 /// counted). `VERIF_C07_STDERR=1` keeps it.
-mod quiet {
+pub(crate) mod quiet {
     use std::sync::{Mutex, OnceLock};
     extern "C" {
         fn dup(fd: i32) -> i32;
